@@ -1,5 +1,7 @@
 (* v0.0: a reference-encoded file decodes to the first person of every frame (zeros, all missing, for a frame
-   without people), from bytes and from a stream, whatever window arguments are given. *)
+   without people), from bytes and from a stream: every frame, or the frames of the requested window (frame bounds,
+   time bounds, or one of each); a start at or beyond the last frame and a frame and a time bound for the same end
+   are refused. *)
 From Coq Require Import ZArith NArith List Lia ZifyBool ZifyN ZifyNat Bool.
 Require Import ListN Result Bytes Utf8 Utf8S F32 Prog Codec ProgLemmas CodecRT PoseRead PoseReadLemmas StreamLemmas
   WindowLemmas StreamRead C04_Legacy C04_Spec C04_Stream C04_Handoff C04_SpecRT C04_V01.
@@ -153,29 +155,198 @@ Proof.
   rewrite (map_combine_app mask_or _ _ _ _ _ H2), E, IH, map_app. reflexivity.
 Qed.
 
-(* ---------- the body ---------- *)
-Theorem v00_body_rt c : wf00 c ->
-  RTp (read_v0_0 (k0_header c)) (spec_body00 c) (p_body (first_person_view c)).
+(* ---------- lengths of the decoded frames ---------- *)
+Lemma lenN_repeat {X} (x : X) n : lenN (repeat x n) = N.of_nat n.
+Proof. unfold lenN. now rewrite repeat_length. Qed.
+Lemma lenN_flat_map_uniform {X Y} (f : X -> list Y) l c : Forall (fun x => lenN (f x) = c) l -> lenN (flat_map f l) = lenN l * c.
+Proof. induction 1 as [|x l Hx _ IH]; [reflexivity|]. cbn [flat_map]. rewrite lenN_app, IH, Hx. unfold lenN. cbn [length]. lia. Qed.
+Lemma comps_lengths L comps pcs : 1 <= L ->
+  Forall2 (fun comp pts => lenN pts = lenN (c_points comp) /\ Forall (wf_point L) pts) comps pcs ->
+  lenN (flat_map (fun pts : list point00 => flat_map fst pts) pcs) = sumN (map (fun c => lenN (c_points c)) comps) * (L - 1) /\
+  lenN (flat_map (fun pts : list point00 => map snd pts) pcs) = sumN (map (fun c => lenN (c_points c)) comps).
 Proof.
-  intros [Hh [Hver [Hfps [HF [Hne [HL2 [HL Hfr]]]]]]].
+  intros HL1 Hw. induction Hw as [|comp pts comps pcs [H1 H2] _ [IH1 IH2]]; [split; reflexivity|].
+  cbn [flat_map map sumN fold_right]. rewrite !lenN_app, IH1, IH2.
+  assert (E1 : lenN (flat_map fst pts) = lenN pts * (L - 1)).
+  { apply lenN_flat_map_uniform. eapply Forall_impl; [|exact H2]. intros q [Hq _]. lia. }
+  assert (E2 : lenN (map snd pts) = lenN pts) by (unfold lenN; now rewrite map_length).
+  rewrite E1, E2, H1. unfold sumN. split; lia.
+Qed.
+Lemma person_lengths h L p : 1 <= L -> wf_person h L p ->
+  lenN (person_data p) = total_points h * (L - 1) /\ lenN (person_conf p) = total_points h.
+Proof. intros HL1 Hw. apply (comps_lengths L _ _ HL1 Hw). Qed.
+Lemma frame_lengths c : wf00 c ->
+  let h := k0_header c in
+  Forall (fun f => lenN (frame_data (total_points h) (spec_dims h) f) = total_points h * spec_dims h) (k0_frames c) /\
+  Forall (fun f => lenN (frame_conf (total_points h) f) = total_points h) (k0_frames c).
+Proof.
+  intros [Hh [Hver [Hfps [HF [Hne [HL2 [HL Hfr]]]]]]] h. fold h in HL2, HL, Hfr.
+  set (L := spec_floats_per_point h) in *. split.
+  - eapply Forall_impl; [|exact Hfr]. intros [|p rest] [_ Hw]; cbn [frame_data]; [rewrite lenN_repeat; lia|].
+    inversion Hw; subst. destruct (person_lengths h L p ltac:(lia) ltac:(assumption)) as [E _]. exact E.
+  - eapply Forall_impl; [|exact Hfr]. intros [|p rest] [_ Hw]; cbn [frame_conf]; [rewrite lenN_repeat; lia|].
+    inversion Hw; subst. destruct (person_lengths h L p ltac:(lia) ltac:(assumption)) as [_ E]. exact E.
+Qed.
+
+(* ---------- the kept slice is the window, and the window of the flat arrays is the concatenation of its frames ---------- *)
+Lemma start0_max s : Z.max (match s with Some z => z | None => 0%Z end) 0 = start0 s.
+Proof. unfold start0. destruct s as [z|]; [destruct (Z.ltb_spec 0 z)|]; lia. Qed.
+Lemma slice_window {X} (l : list X) s e :
+  let F := Z.of_N (lenN l) in
+  (start0 s <= end0 e F)%Z ->
+  slice_list (start0 s) (match e with Some z => Some (Z.max z 0) | None => None end) l =
+  takeN (Z.to_N (end0 e F) - Z.to_N (start0 s)) (dropN (Z.to_N (start0 s)) l).
+Proof.
+  intros F Hse. unfold slice_list.
+  assert (Hs0 : (0 <= start0 s)%Z) by (unfold start0; destruct s as [z|]; [destruct (0 <? z)%Z eqn:E|]; lia).
+  pose proof (lenN_dropN (Z.to_N (start0 s)) l) as Hld.
+  destruct e as [z|]; unfold end0 in *.
+  - destruct (Z.le_gt_cases z F) as [Hz|Hz].
+    + f_equal. lia.
+    + rewrite !takeN_all by lia. reflexivity.
+  - symmetry. apply takeN_all. lia.
+Qed.
+Lemma flat_window {X Y} (f : X -> list Y) (l : list X) cells s0 e0 :
+  Forall (fun x => lenN (f x) = cells) l -> (0 <= s0 <= e0)%Z ->
+  takeN (Z.to_N ((e0 - s0) * Z.of_N cells)) (dropN (Z.to_N (s0 * Z.of_N cells)) (flat_map f l)) =
+  flat_map f (takeN (Z.to_N e0 - Z.to_N s0) (dropN (Z.to_N s0) l)).
+Proof.
+  intros Hu Hse. rewrite !flat_map_concat_map.
+  assert (Hu' : Forall (fun fr => lenN fr = cells) (map f l)) by (apply Forall_map; exact Hu).
+  replace (Z.to_N (s0 * Z.of_N cells)) with (Z.to_N s0 * cells) by nia.
+  replace (Z.to_N ((e0 - s0) * Z.of_N cells)) with ((Z.to_N e0 - Z.to_N s0) * cells) by nia.
+  rewrite dropN_concat_uniform by exact Hu'.
+  rewrite takeN_concat_uniform by (now apply Forall_dropN).
+  now rewrite dropN_map, takeN_map.
+Qed.
+
+(* ---------- the body ---------- *)
+(* the decoder after its two argument checks *)
+Definition body00 (h : header) (sf st ef et : option Z) : prog body :=
+  dop ff <- rd_u16x2;
+  let fps := f32_of_u16 (fst ff) in
+  dop s <- plift (resolve_start fps sf st);
+  dop e <- plift (resolve_end fps ef et);
+  if (match s with Some z => (0 <? z)%Z && (Z.of_N (snd ff) <=? z)%Z | None => false end) then Fail Value else
+  let lo := Z.max (match s with Some z => z | None => 0%Z end) 0 in
+  let hi := match e with Some z => Some (Z.max z 0) | None => None end in
+  dop D <- plift (num_dims h);
+  let T := total_points h in
+  dop frames <- prep (N.to_nat (snd ff)) (rd_frame00 (h_comps h) T D);
+  let kept := slice_list lo hi frames in
+  if (D <=? 0)%Z then Fail Value else
+  let conf := flat_map (fun f => snd (fst f)) kept in
+  Ret {| b_fps := fps;
+         b_shape := [lenN kept; 1; T; Z.to_N D];
+         b_data := flat_map (fun f => fst (fst f)) kept;
+         b_conf := conf;
+         b_mask := map (fun mc => orb (fst mc) (is_zero32 (snd mc))) (combine (flat_map (fun f => snd f) kept) conf) |}.
+Lemma read_v0_0_shape h sf st ef et :
+  read_v0_0 h sf st ef et = if conflict sf st || conflict ef et then Fail Value else body00 h sf st ef et.
+Proof. destruct sf, st, ef, et; reflexivity. Qed.
+Lemma not_beyond s F : (start0 s = 0 \/ start0 s < F)%Z ->
+  (match s with Some z => (0 <? z)%Z && (F <=? z)%Z | None => false end) = false.
+Proof. unfold start0. destruct s as [z|]; [|reflexivity]. destruct (Z.ltb_spec 0 z) as [Hz|Hz]; intros Hv; [|reflexivity]. cbn [andb]. lia. Qed.
+Lemma is_beyond s F : (0 < start0 s)%Z -> (F <= start0 s)%Z ->
+  (match s with Some z => (0 <? z)%Z && (F <=? z)%Z | None => false end) = true.
+Proof. unfold start0. destruct s as [z|]; [|lia]. destruct (Z.ltb_spec 0 z) as [Hz|Hz]; intros H0 HF; [|lia]. cbn [andb]. lia. Qed.
+
+Definition frames00 (c : content00) : Z := Z.of_N (lenN (k0_frames c)).
+(* frames [s0, e0) of the first-person view *)
+Definition v00_window_view (c : content00) (s0 e0 : Z) : pose :=
+  {| p_header := k0_header c; p_body := window_body (p_body (first_person_view c)) s0 e0 |}.
+
+Theorem v00_body_window_rt c sf st ef et s e : wf00 c ->
+  conflict sf st = false -> conflict ef et = false ->
+  resolve_start (fps_value (k0_fps c)) sf st = Ok s -> resolve_end (fps_value (k0_fps c)) ef et = Ok e ->
+  (start0 s = 0 \/ start0 s < frames00 c)%Z -> (start0 s <= end0 e (frames00 c))%Z ->
+  RTp (read_v0_0 (k0_header c) sf st ef et) (spec_body00 c)
+      (p_body (v00_window_view c (start0 s) (end0 e (frames00 c)))).
+Proof.
+  intros Hwf Hc1 Hc2 Hrs Hre Hv1 Hv2. destruct (frame_lengths c Hwf) as [Hld Hlc].
+  destruct Hwf as [Hh [Hver [Hfps [HF [Hne [HL2 [HL Hfr]]]]]]].
   set (h := k0_header c) in *. set (L := spec_floats_per_point h) in *.
   assert (Hnd : num_dims h = Ok (Z.of_N (spec_dims h))).
   { rewrite (num_dims_spec _ Hne). unfold spec_dims. fold L. f_equal. lia. }
-  unfold read_v0_0, spec_body00, first_person_view. cbn [p_body]. fold h.
+  rewrite read_v0_0_shape, Hc1, Hc2. cbn [orb].
+  unfold body00, spec_body00, v00_window_view, first_person_view. cbn [p_body]. fold h.
   replace (enc_u16 (k0_fps c) ++ enc_u16 (lenN (k0_frames c)) ++ concat (map spec_frame00 (k0_frames c)))
     with ((enc_u16 (k0_fps c) ++ enc_u16 (lenN (k0_frames c))) ++ concat (map spec_frame00 (k0_frames c)))
     by (rewrite <- !app_assoc; reflexivity).
   apply RTp_bind with (a := (k0_fps c, lenN (k0_frames c))); [now apply u16x2_rt|].
-  rewrite Hnd. cbn [plift pbind fst snd].
+  cbn [fst snd]. change (f32_of_u16 (k0_fps c)) with (fps_value (k0_fps c)). rewrite Hrs, Hre. cbn [plift pbind].
+  fold (frames00 c). rewrite (not_beyond s (frames00 c) Hv1).
+  rewrite Hnd. cbn [plift pbind].
   rewrite <- (app_nil_r (concat _)).
   apply RTp_bind with (a := map (frame_result (total_points h) (spec_dims h)) (k0_frames c)).
   { rewrite to_nat_lenN, <- (map_length (frame_result (total_points h) (spec_dims h))). apply RTp_prep.
     clear - HL HL2 Hfr. induction Hfr as [|f frames [Hf1 Hf2] _ IH]; cbn [map]; constructor; [|exact IH].
     now apply (frame00_rt h L). }
   destruct (Z.leb_spec (Z.of_N (spec_dims h)) 0) as [Hbad|_]; [unfold spec_dims in Hbad; fold L in Hbad; lia|].
+  (* the kept frames are the window's *)
+  set (s0 := start0 s) in *. set (e0 := end0 e (frames00 c)) in *.
+  assert (He0 : (e0 <= frames00 c)%Z) by (unfold e0, end0; destruct e; lia).
+  assert (Hs0 : (0 <= s0)%Z) by (unfold s0, start0; destruct s as [z|]; [destruct (0 <? z)%Z eqn:E|]; lia).
+  rewrite start0_max. fold s0.
+  pose proof (slice_window (map (frame_result (total_points h) (spec_dims h)) (k0_frames c)) s e) as Hk.
+  cbv zeta in Hk. unfold lenN at 1 2 in Hk. rewrite map_length in Hk. fold (lenN (k0_frames c)) in Hk. fold (frames00 c) in Hk.
+  fold s0 e0 in Hk. rewrite (Hk Hv2), dropN_map, takeN_map. clear Hk.
+  set (W := takeN (Z.to_N e0 - Z.to_N s0) (dropN (Z.to_N s0) (k0_frames c))).
   rewrite !flat_map_map. cbn [fst snd frame_result].
   fold mask_or. rewrite frames_mask_ok, N2Z.id.
+  unfold window_body. cbn [b_shape b_fps b_data b_conf b_mask].
+  change (spec_points h) with (total_points h).
+  replace (Z.of_N (1 * total_points h)) with (Z.of_N (total_points h)) by lia.
+  rewrite (dropN_map is_zero32), (takeN_map is_zero32).
+  rewrite (flat_window (frame_conf (total_points h)) (k0_frames c) (total_points h) s0 e0 Hlc) by lia.
+  replace (Z.of_N (total_points h) * Z.of_N (spec_dims h))%Z with (Z.of_N (total_points h * spec_dims h)) by lia.
+  rewrite (flat_window (frame_data (total_points h) (spec_dims h)) (k0_frames c) _ s0 e0 Hld) by lia.
+  fold W.
+  replace (lenN (map (frame_result (total_points h) (spec_dims h)) W)) with (Z.to_N (e0 - s0)).
+  2:{ unfold lenN. rewrite map_length. fold (lenN W). unfold W. rewrite lenN_takeN, lenN_dropN. unfold frames00 in He0. lia. }
   apply RTp_ret.
+Qed.
+
+(* no bound: the window is the whole view *)
+Lemma v00_window_full c : wf00 c -> v00_window_view c 0 (frames00 c) = first_person_view c.
+Proof.
+  intros Hwf. destruct (frame_lengths c Hwf) as [Hld Hlc].
+  unfold v00_window_view, first_person_view, window_body, frames00. cbn [p_body p_header b_shape b_fps b_data b_conf b_mask].
+  set (h := k0_header c) in *. change (spec_points h) with (total_points h).
+  pose proof (lenN_flat_map_uniform _ _ _ Hld) as E1. pose proof (lenN_flat_map_uniform _ _ _ Hlc) as E2.
+  rewrite !Z.mul_0_l, !dropN_0, Z.sub_0_r.
+  f_equal. f_equal.
+  - f_equal. lia.
+  - apply takeN_all. rewrite E1. lia.
+  - apply takeN_all. rewrite E2. lia.
+  - apply takeN_all.
+    replace (lenN (map is_zero32 (flat_map (frame_conf (total_points h)) (k0_frames c))))
+      with (lenN (flat_map (frame_conf (total_points h)) (k0_frames c))) by (unfold lenN; now rewrite map_length).
+    rewrite E2. lia.
+Qed.
+Theorem v00_body_rt c : wf00 c ->
+  RTp (read_v0_0 (k0_header c) None None None None) (spec_body00 c) (p_body (first_person_view c)).
+Proof.
+  intros Hwf. rewrite <- (v00_window_full c Hwf).
+  apply (v00_body_window_rt c None None None None None None Hwf); try reflexivity; cbn [start0 end0]; unfold frames00; lia.
+Qed.
+
+(* a start at or beyond the declared frame count: ValueError, raised before the first frame is decoded *)
+Theorem v00_body_beyond c sf st ef et s e x : wf00 c ->
+  conflict sf st = false -> conflict ef et = false ->
+  resolve_start (fps_value (k0_fps c)) sf st = Ok s -> resolve_end (fps_value (k0_fps c)) ef et = Ok e ->
+  (0 < start0 s)%Z -> (frames00 c <= start0 s)%Z ->
+  FLq (read_v0_0 (k0_header c) sf st ef et) (spec_body00 c) x Value.
+Proof.
+  intros Hwf Hc1 Hc2 Hrs Hre H0 HF.
+  destruct Hwf as [Hh [Hver [Hfps [HFr _]]]].
+  rewrite read_v0_0_shape, Hc1, Hc2. cbn [orb]. unfold body00, spec_body00.
+  replace (enc_u16 (k0_fps c) ++ enc_u16 (lenN (k0_frames c)) ++ concat (map spec_frame00 (k0_frames c)))
+    with ((enc_u16 (k0_fps c) ++ enc_u16 (lenN (k0_frames c))) ++ concat (map spec_frame00 (k0_frames c)))
+    by (rewrite <- !app_assoc; reflexivity).
+  apply FLq_bind with (a := (k0_fps c, lenN (k0_frames c))); [apply RTp_RTq; now apply u16x2_rt|].
+  cbn [fst snd]. change (f32_of_u16 (k0_fps c)) with (fps_value (k0_fps c)). rewrite Hrs, Hre. cbn [plift pbind].
+  fold (frames00 c). rewrite (is_beyond s (frames00 c) H0 HF). apply FLq_fail.
 Qed.
 
 (* ---------- the decoder only reads and advances ---------- *)
@@ -194,46 +365,133 @@ Proof.
   - apply v0prog_bind; [apply v0prog_rd_person00|]. intros p0.
     apply v0prog_bind; [apply v0prog_prep, v0prog_rd_person00|]. intros rest. exact I.
 Qed.
-Lemma v0prog_read_v0_0 h : v0prog (read_v0_0 h).
+(* the argument checks raise before anything is read; the slice is a pure post-processing of the decoded frames *)
+Lemma v0prog_read_v0_0 h sf st ef et : v0prog (read_v0_0 h sf st ef et).
 Proof.
-  unfold read_v0_0. apply v0prog_bind; [cbn; auto|]. intros ff.
+  rewrite read_v0_0_shape. destruct (conflict sf st || conflict ef et); [exact I|]. unfold body00.
+  apply v0prog_bind; [cbn; auto|]. intros ff.
+  apply v0prog_bind; [apply v0prog_plift|]. intros s.
+  apply v0prog_bind; [apply v0prog_plift|]. intros e.
+  destruct (match s with Some z => _ | None => false end); [exact I|].
   apply v0prog_bind; [apply v0prog_plift|]. intros D.
   apply v0prog_bind; [apply v0prog_prep, v0prog_rd_frame00|]. intros frames.
   destruct (D <=? 0)%Z; exact I.
 Qed.
 
 (* ---------- Pose.read ---------- *)
-Theorem v00_read_bytes c m a x : wf00 c -> MemoOK m ->
-  fst (read_bytes c04_legacy m (spec00 c ++ x) a) = Ok (first_person_view c).
+Definition window00 (c : content00) (a : rargs) : result (Z * Z) := window_of (fps_value (k0_fps c)) (frames00 c) a.
+
+Theorem v00_read_bytes_window c m a x s0 e0 : wf00 c -> MemoOK m ->
+  window00 c a = Ok (s0, e0) -> valid_window (frames00 c) s0 e0 ->
+  fst (read_bytes c04_legacy m (spec00 c ++ x) a) = Ok (v00_window_view c s0 e0).
 Proof.
-  intros Hwf Hm. pose proof Hwf as [Hh [Hver _]].
+  intros Hwf Hm Hw [Hv1 Hv2].
+  destruct (window_of_inv _ _ _ _ _ Hw) as [Hc1 [Hc2 [s [e [Hrs [Hre [-> ->]]]]]]].
+  pose proof Hwf as [Hh [Hver _]].
   unfold spec00. rewrite <- app_assoc.
   rewrite (bytes_header c04_legacy m _ a _ _ Hm (spec_header_parsed _ (spec_body00 c ++ x) Hh)).
   unfold read_body, read_body_with. rewrite Hver. cbn [c04_legacy].
-  rewrite (v00_body_rt c Hwf (spec_header (k0_header c)) x).
+  rewrite (v00_body_window_rt c _ _ _ _ s e Hwf Hc1 Hc2 Hrs Hre Hv1 Hv2 (spec_header (k0_header c)) x).
   reflexivity.
 Qed.
-Theorem v00_read_stream c m a x : wf00 c -> MemoOK m ->
-  fst (fst (read_stream4 c04_legacy m (spec00 c ++ x) a)) = Ok (first_person_view c).
+Theorem v00_read_stream_window c m a x s0 e0 : wf00 c -> MemoOK m ->
+  window00 c a = Ok (s0, e0) -> valid_window (frames00 c) s0 e0 ->
+  fst (fst (read_stream4 c04_legacy m (spec00 c ++ x) a)) = Ok (v00_window_view c s0 e0).
 Proof.
-  intros Hwf Hm.
+  intros Hwf Hm Hw Hv.
   destruct (any_arg a) eqn:Ha.
   - pose proof Hwf as [Hh [Hver _]].
     apply (stream4_of_bytes_v0 c04_legacy m (spec00 c ++ x) a (k0_header c) (lenN (spec_header (k0_header c)))); try assumption.
     + unfold spec00. rewrite <- app_assoc. apply spec_header_parsed. exact Hh.
     + unfold read_body, read_body_with. rewrite Hver. apply v0prog_read_v0_0.
-    + now apply v00_read_bytes.
-  - rewrite read_stream4_noargs by exact Ha. now apply v00_read_bytes.
+    + now apply v00_read_bytes_window.
+  - rewrite read_stream4_noargs by exact Ha. now apply v00_read_bytes_window.
+Qed.
+
+(* no window argument: every frame *)
+Lemma no_args_window fps F a : any_arg a = false -> window_of fps F a = Ok (0%Z, F).
+Proof.
+  unfold any_arg. intros Ha. destruct (a_sf a) eqn:E1, (a_st a) eqn:E2, (a_ef a) eqn:E3, (a_et a) eqn:E4; try discriminate.
+  unfold window_of. rewrite E1, E2, E3, E4. reflexivity.
+Qed.
+Corollary v00_read_bytes c m a x : wf00 c -> MemoOK m -> any_arg a = false ->
+  fst (read_bytes c04_legacy m (spec00 c ++ x) a) = Ok (first_person_view c).
+Proof.
+  intros Hwf Hm Ha. rewrite <- (v00_window_full c Hwf).
+  apply v00_read_bytes_window; [exact Hwf|exact Hm|now apply no_args_window|]. unfold valid_window, frames00. lia.
+Qed.
+Corollary v00_read_stream c m a x : wf00 c -> MemoOK m -> any_arg a = false ->
+  fst (fst (read_stream4 c04_legacy m (spec00 c ++ x) a)) = Ok (first_person_view c).
+Proof.
+  intros Hwf Hm Ha. rewrite <- (v00_window_full c Hwf).
+  apply v00_read_stream_window; [exact Hwf|exact Hm|now apply no_args_window|]. unfold valid_window, frames00. lia.
 Qed.
 
 (* a file that declares zero frames decodes to the empty pose of shape (0, 1, points, dims) *)
-Corollary v00_zero_frames c m a : wf00 c -> k0_frames c = [] -> MemoOK m ->
+Corollary v00_zero_frames c m a : wf00 c -> k0_frames c = [] -> MemoOK m -> any_arg a = false ->
   fst (read_bytes c04_legacy m (spec00 c) a) = Ok (first_person_view c) /\
   b_shape (p_body (first_person_view c)) = [0; 1; spec_points (k0_header c); spec_dims (k0_header c)] /\
   b_data (p_body (first_person_view c)) = [] /\ b_conf (p_body (first_person_view c)) = [] /\
   b_mask (p_body (first_person_view c)) = [].
 Proof.
-  intros Hwf H0 Hm. split.
+  intros Hwf H0 Hm Ha. split.
   - rewrite <- (app_nil_r (spec00 c)). now apply v00_read_bytes.
   - unfold first_person_view. cbn [p_body b_shape b_data b_conf b_mask]. rewrite H0. repeat split.
+Qed.
+
+(* ---------- refused arguments ---------- *)
+Lemma v00_parsed c x : wf00 c ->
+  run_plain rd_header {| pbuf := spec00 c ++ x; poff := 0 |} =
+  Ok (k0_header c, {| pbuf := spec00 c ++ x; poff := lenN (spec_header (k0_header c)) |}).
+Proof. intros [Hh _]. unfold spec00. rewrite <- app_assoc. apply spec_header_parsed. exact Hh. Qed.
+Theorem v00_conflict_bytes c m a x : wf00 c -> MemoOK m ->
+  conflict (a_sf a) (a_st a) || conflict (a_ef a) (a_et a) = true ->
+  fst (read_bytes c04_legacy m (spec00 c ++ x) a) = Err Value.
+Proof.
+  intros Hwf Hm Hc. pose proof Hwf as [Hh [Hver _]].
+  rewrite (bytes_header c04_legacy m _ a _ _ Hm (v00_parsed c x Hwf)).
+  unfold read_body, read_body_with. rewrite Hver. cbn [c04_legacy]. rewrite read_v0_0_shape, Hc. reflexivity.
+Qed.
+Theorem v00_conflict_stream c m a x : wf00 c -> MemoOK m ->
+  conflict (a_sf a) (a_st a) || conflict (a_ef a) (a_et a) = true ->
+  fst (fst (read_stream4 c04_legacy m (spec00 c ++ x) a)) = Err Value.
+Proof.
+  intros Hwf Hm Hc. destruct (any_arg a) eqn:Ha.
+  - pose proof Hwf as [Hh [Hver _]].
+    apply (stream4_fail_v0 c04_legacy m (spec00 c ++ x) a (k0_header c) (lenN (spec_header (k0_header c)))); try assumption.
+    + now apply v00_parsed.
+    + unfold read_body, read_body_with. rewrite Hver. apply v0prog_read_v0_0.
+    + unfold read_body, read_body_with. rewrite Hver. cbn [c04_legacy]. rewrite read_v0_0_shape, Hc. reflexivity.
+  - rewrite read_stream4_noargs by exact Ha. now apply v00_conflict_bytes.
+Qed.
+Lemma v00_beyond_fails c a x s0 e0 : wf00 c -> window00 c a = Ok (s0, e0) -> (0 < s0)%Z -> (frames00 c <= s0)%Z ->
+  fails_at (read_body c04_legacy (k0_header c) a)
+           {| pbuf := spec00 c ++ x; poff := lenN (spec_header (k0_header c)) |} Value.
+Proof.
+  intros Hwf Hw H0 HF.
+  destruct (window_of_inv _ _ _ _ _ Hw) as [Hc1 [Hc2 [s [e [Hrs [Hre [-> ->]]]]]]].
+  pose proof Hwf as [Hh [Hver _]].
+  unfold read_body, read_body_with. rewrite Hver. cbn [c04_legacy]. unfold spec00. rewrite <- app_assoc.
+  exact (v00_body_beyond c _ _ _ _ s e x Hwf Hc1 Hc2 Hrs Hre H0 HF (spec_header (k0_header c))).
+Qed.
+Theorem v00_beyond_bytes c m a x s0 e0 : wf00 c -> MemoOK m -> window00 c a = Ok (s0, e0) ->
+  (0 < s0)%Z -> (frames00 c <= s0)%Z ->
+  fst (read_bytes c04_legacy m (spec00 c ++ x) a) = Err Value.
+Proof.
+  intros Hwf Hm Hw H0 HF.
+  apply (bytes_fail c04_legacy m (spec00 c ++ x) a (k0_header c) (lenN (spec_header (k0_header c)))); [exact Hm| |].
+  - now apply v00_parsed.
+  - now apply (v00_beyond_fails c a x s0 e0).
+Qed.
+Theorem v00_beyond_stream c m a x s0 e0 : wf00 c -> MemoOK m -> window00 c a = Ok (s0, e0) ->
+  (0 < s0)%Z -> (frames00 c <= s0)%Z ->
+  fst (fst (read_stream4 c04_legacy m (spec00 c ++ x) a)) = Err Value.
+Proof.
+  intros Hwf Hm Hw H0 HF. destruct (any_arg a) eqn:Ha.
+  - pose proof Hwf as [Hh [Hver _]].
+    apply (stream4_fail_v0 c04_legacy m (spec00 c ++ x) a (k0_header c) (lenN (spec_header (k0_header c)))); try assumption.
+    + now apply v00_parsed.
+    + unfold read_body, read_body_with. rewrite Hver. apply v0prog_read_v0_0.
+    + now apply (v00_beyond_fails c a x s0 e0).
+  - rewrite read_stream4_noargs by exact Ha. now apply (v00_beyond_bytes c m a x s0 e0).
 Qed.
